@@ -217,7 +217,18 @@ func c04Request(run *ev.Run, rec *recorded, key string) {
 	bounds := frameBoundaries(body)
 	enveloped := !(rec.Proto == "connect" && rec.Kind == svc.Unary)
 	drains := rec.Kind == svc.ClientStream || rec.Kind == svc.Bidi
-	prog := func() *svc.Program {
+	prog := func(k int) *svc.Program {
+		if rec.Kind == svc.ClientStream && k%2 == 1 {
+			// a client-stream handler that polls Receive a few more times after it
+			// has reported the end or an error (a batching loop): the stream keeps
+			// reporting its first error ("Err returns the first non-EOF error")
+			p := &svc.Program{ReturnFirstRecvErr: true}
+			for i := 0; i < len(rec.Sends)+4; i++ {
+				p.Steps = append(p.Steps, svc.Step{Op: "recv"})
+			}
+			p.Steps = append(p.Steps, svc.Step{Op: "sendsum"})
+			return p
+		}
 		if drains {
 			return &svc.Program{Steps: []svc.Step{{Op: "recvall"}, {Op: "sendsum"}}, StopOnRecvErr: true}
 		}
@@ -229,7 +240,7 @@ func c04Request(run *ev.Run, rec *recorded, key string) {
 			var hl *svc.HLog
 			var res *wire.Result
 			ok, dump := watchdog(30*time.Second, func() {
-				hl, res = rec.replayRequest(&wire.ScriptedBody{Data: body[:k], FinalErr: e.err}, prog(), c04HLimit(k)...)
+				hl, res = rec.replayRequest(&wire.ScriptedBody{Data: body[:k], FinalErr: e.err}, prog(k), c04HLimit(k)...)
 			})
 			_, atB := bounds[k]
 			pos := "mid-frame"
